@@ -19,11 +19,8 @@ from vf import flowgen as fg
 
 CHAIN = cg.CHAIN
 CURRENT = CHAIN[-1]
-INNER_MAPPED = frozenset({"ValueError"})
-OUTER_MAPPED = frozenset({"ValueError", "TypeError", "IndexError"})
-if os.environ.get("VERIF_C36_READER") == "repaired":  # findings_proposed/C36.fix.diff applied
-    INNER_MAPPED = frozenset({"*"})
-    OUTER_MAPPED = frozenset({"ValueError", "TypeError", "IndexError", "RecursionError"})
+INNER_MAPPED = frozenset({"*"})  # FlowReader.stream since /repo 69b4c744d (see props/C36.py)
+OUTER_MAPPED = frozenset({"ValueError", "TypeError", "IndexError", "RecursionError"})
 
 
 def R(dele=(), add=(), ren=()):
@@ -61,8 +58,9 @@ RULES = {
            add=_both("state", "error", "tls", "alpn_offers", "cipher_list", "certificate_list")
            + ["cc.sockname", "sc.cipher_name", "sc.via2"]),
     "10": R(ren=[(p + ".alpn_proto_negotiated", p + ".alpn") for p in ("cc", "sc")]),
-    "11": R(add=[("request", "websocket:none")] if os.environ.get("VERIF_C38_COMPAT") == "repaired"  # C38.fix.diff
-            else ["websocket:none"]),
+    # since /repo 12ed4ec4f (repair of finding C38) only HTTP flows get "websocket": None; before, every flow did
+    # (rule R(add=["websocket:none"]); mutants/C38/M0 reverts the repair)
+    "11": R(add=[("request", "websocket:none")]),
     "12": R(dele=["marked:bool"], add=["marked:str"]),
     "13": R(add=["comment"]),
     "14": R(),
